@@ -28,7 +28,22 @@
 (* Every transport attempt and every sub-query debits the ledger FIRST      *)
 (* (Resolver.exchange, pipelineQueryer.Query).                              *)
 (*                                                                         *)
+(* IPv6 access (v6, chosen at Init from V6Set) adds DETACHED HELPER JOBS:     *)
+(* every referral that is processed for the first time (processDelegation,  *)
+(* delegation-cache miss) retains the tree's ledger and starts a job that,  *)
+(* after the client has its reply, looks up the AAAA address of every NS     *)
+(* host of that referral (lookupV6Nss -> lookupNSAddrV6 -> Queryer.Query).   *)
+(* The jobs debit the SAME ledger (best effort: a rejected debit stops the   *)
+(* job, latches nothing and cannot touch the reply).  A run is finished      *)
+(* (fin) only when the reply is out AND every job has returned; all budget   *)
+(* properties are stated on the finished tree.  Job hosts: 0 = ns.test.,     *)
+(* N+n = the in-zone NS name of zone n (with A glue), j in 1..N = the        *)
+(* glue-less NS name that is goal j.                                        *)
+(*                                                                         *)
 (* Deliberate deviations: referral depth is only counted for the generator; *)
+(* an AAAA goal walks like the A goal of the same name and shares its        *)
+(* attempt counters; the in-zone NS name of a zone costs one packet at the   *)
+(* zone's server (the retry ladder for a dead one, two for the generator);   *)
 (* the answer cache inside one request tree is not modelled (the code's     *)
 (* inner answers are stored only after the chase completed); qname          *)
 (* minimisation only changes packet counts and is left to the replay.       *)
@@ -43,6 +58,9 @@ CONSTANTS N,            \* number of goals
           MaxDepth, MaxQ, MaxChase, MaxDname,
           \* model mutants (regression configurations must FAIL with these on)
           TcpNotDebited, ShadowRejects, LeakBudgetFailure, LoopCapOff,
+          V6Set,        \* values of the ipv6access configuration dimension (subset of BOOLEAN)
+          DetachedFresh,\* mutant: the detached job's context lost the tree's ledger, every lookup it makes
+                        \* is an ownerless request that gets a brand-new ledger with the full budget
           Emit          \* print one JSON line per finished behaviour
 
 Nodes == 1..N
@@ -50,9 +68,9 @@ Modes == {"off", "shadow", "enforce"}
 MaxAttempts == 3
 MaxGenFan == 2
 
-VARIABLES topo, budget, run
+VARIABLES topo, budget, v6, run
 
-vars == <<topo, budget, run>>
+vars == <<topo, budget, v6, run>>
 
 (***************************************************************************)
 (* Topologies                                                              *)
@@ -90,9 +108,13 @@ Frame(n, via, qd, cd, dd, nsl) ==
    qd |-> qd, cd |-> cd, dd |-> dd, md |-> MaxDepth, nsl |-> nsl,
    sub |-> 0, sp |-> 0, pend |-> 0, ret |-> "none", cret |-> "none"]
 
+\* out/int: the tree's ledger.  pk/sq: packets really sent / sub-queries really started by the tree
+\* (dpk/dsq: those of them after the reply).  fout/fint: the stray ledger of the DetachedFresh mutant.
+\* jobs: pending detached jobs (head = the running one), each the NS hosts it still has to look up.
 R0 ==
   [stack |-> <<Frame(1, "client", 0, 0, 0, <<>>)>>,
-   out |-> 0, int |-> 0, pk |-> 0, latched |-> FALSE,
+   out |-> 0, int |-> 0, pk |-> 0, sq |-> 0, dpk |-> 0, dsq |-> 0, fout |-> 0, fint |-> 0,
+   jobs |-> <<>>, starved |-> FALSE, fin |-> FALSE, latched |-> FALSE,
    attT |-> [n \in Nodes |-> 0], attL |-> [n \in Nodes |-> 0],
    knowTest |-> FALSE, knowSink |-> FALSE, knowZone |-> {},
    reply |-> "none", recorded |-> FALSE, hops |-> 0, done |-> FALSE]
@@ -102,6 +124,13 @@ SetTop(r, f) == [r EXCEPT !.stack[Len(r.stack)] = f]
 
 Count(seq, x) == Cardinality({i \in 1..Len(seq) : seq[i] = x})
 MinOf(S) == CHOOSE x \in S : \A y \in S : x <= y
+RECURSIVE SeqOf(_)
+SeqOf(S) == IF S = {} THEN <<>> ELSE <<MinOf(S)>> \o SeqOf(S \ {MinOf(S)})
+
+\* the client has its reply: whatever still runs is a retained helper job
+Det(r) == r.reply # "none"
+\* the mutant's ownerless lookups book on a stray ledger
+Fresh(r) == DetachedFresh /\ Det(r)
 
 (***************************************************************************)
 (* The ledger: debit first.  Debit(r,m,kind) = <<accepted, r'>>.            *)
@@ -109,8 +138,10 @@ MinOf(S) == CHOOSE x \in S : \A y \in S : x <= y
 (* the first rejection is latched and terminal for the whole request tree.  *)
 (***************************************************************************)
 Cap(kind) == IF kind = "out" THEN budget[1] ELSE budget[2]
-Used(r, kind) == IF kind = "out" THEN r.out ELSE r.int
-Bump(r, kind) == IF kind = "out" THEN [r EXCEPT !.out = @ + 1] ELSE [r EXCEPT !.int = @ + 1]
+Used(r, kind) == IF Fresh(r) THEN (IF kind = "out" THEN r.fout ELSE r.fint)
+                 ELSE (IF kind = "out" THEN r.out ELSE r.int)
+Bump(r, kind) == IF Fresh(r) THEN (IF kind = "out" THEN [r EXCEPT !.fout = @ + 1] ELSE [r EXCEPT !.fint = @ + 1])
+                 ELSE (IF kind = "out" THEN [r EXCEPT !.out = @ + 1] ELSE [r EXCEPT !.int = @ + 1])
 
 Rejecting(m) == m = "enforce" \/ (ShadowRejects /\ m = "shadow")
 
@@ -118,15 +149,22 @@ Accepts(r, m, kind) == ~Rejecting(m) \/ Used(r, kind) < Cap(kind)
 
 Debited(r, m, kind) == IF m = "off" THEN r ELSE Bump(r, kind)
 
-\* the request tree dies: SERVFAIL + EDE, request-local
+\* the request tree dies: SERVFAIL + EDE, request-local.  A detached job debits best effort
+\* (WithBestEffortRecursionWork): the running job returns, nothing is latched, the reply is long gone
 Rejected(r) ==
-  [r EXCEPT !.stack = <<>>, !.latched = TRUE, !.reply = "servfail_ede",
-            !.recorded = LeakBudgetFailure, !.done = TRUE]
+  IF Det(r)
+  THEN [r EXCEPT !.stack = <<>>, !.jobs = Tail(@), !.starved = TRUE]
+  ELSE [r EXCEPT !.stack = <<>>, !.latched = TRUE, !.reply = "servfail_ede",
+                 !.recorded = LeakBudgetFailure, !.done = TRUE]
 
 \* one upstream packet (a transport attempt): debit, then send
 Send(r, m, tcp) ==
   LET d == IF tcp /\ TcpNotDebited THEN r ELSE Debited(r, m, "out")
-  IN [d EXCEPT !.pk = @ + 1]
+  IN [d EXCEPT !.pk = @ + 1, !.dpk = IF Det(r) THEN @ + 1 ELSE @]
+\* one internal sub-query really started
+Started(r) == [r EXCEPT !.sq = @ + 1, !.dsq = IF Det(r) THEN @ + 1 ELSE @]
+\* processDelegation on a delegation-cache miss with ipv6access: retain the ledger, start the enrichment job
+Spawn(r, hosts) == IF v6 /\ hosts # <<>> THEN [r EXCEPT !.jobs = Append(@, hosts)] ELSE r
 SendOK(r, m, tcp) == (tcp /\ TcpNotDebited) \/ Accepts(r, m, "out")
 
 (***************************************************************************)
@@ -137,7 +175,7 @@ Ret(r, f, code) == SetTop(r, [f EXCEPT !.ret = code])
 Push(r, m, f, child, nextPh) ==
   \* pipelineQueryer.Query: recursion bound, THEN debit, then run the sub-pipeline
   LET parent == [f EXCEPT !.ph = nextPh, !.pend = 0]
-      r1 == Debited(r, m, "int")
+      r1 == Started(Debited(r, m, "int"))
   IN [r1 EXCEPT !.stack = Append(SubSeq(r.stack, 1, Len(r.stack) - 1) \o <<parent>>, child)]
 
 StepFrame(r, m) ==
@@ -147,7 +185,9 @@ StepFrame(r, m) ==
   IN
   CASE f.ret # "none" ->
          \* pop: hand the result to the parent, or finish the client query
-         IF Len(r.stack) = 1
+         IF Len(r.stack) = 1 /\ Det(r)
+         THEN [r EXCEPT !.stack = <<>>]   \* enrichment: the addresses join the delegation, nothing else happens
+         ELSE IF Len(r.stack) = 1
          THEN [r EXCEPT !.stack = <<>>, !.done = TRUE,
                         !.reply = IF f.ret \in {"ok", "partial"} THEN "answer" ELSE "servfail",
                         !.recorded = (f.ret = "gen")]
@@ -157,7 +197,7 @@ StepFrame(r, m) ==
          \* root: the referral to test. is learned once (delegation cache)
          IF r.knowTest THEN SetTop(r, [f EXCEPT !.ph = 1])
          ELSE IF ~SendOK(r, m, FALSE) THEN Rejected(r)
-         ELSE SetTop([Send(r, m, FALSE) EXCEPT !.knowTest = TRUE], [f EXCEPT !.ph = 1])
+         ELSE SetTop(Spawn([Send(r, m, FALSE) EXCEPT !.knowTest = TRUE], <<0>>), [f EXCEPT !.ph = 1])
     [] f.ph = 1 ->
          \* test.: referral to z<n>; glueless zones need their NS addresses first
          IF n \in r.knowZone THEN SetTop(r, [f EXCEPT !.ph = 2])
@@ -166,7 +206,7 @@ StepFrame(r, m) ==
          ELSE LET r1 == [Send(r, m, FALSE) EXCEPT !.attT[n] = @ + 1]
               IN IF k = "NS"
                  THEN SetTop(r1, [f EXCEPT !.ph = 11, !.todo = topo[n].tgt, !.found = FALSE])
-                 ELSE SetTop([r1 EXCEPT !.knowZone = @ \cup {n}], [f EXCEPT !.ph = 2])
+                 ELSE SetTop(Spawn([r1 EXCEPT !.knowZone = @ \cup {n}], <<N + n>>), [f EXCEPT !.ph = 2])
     [] f.ph = 11 ->
          \* lookupV4Nss: every NS host in turn (checkLoop, then an internal A lookup)
          IF f.cret # "none"
@@ -174,7 +214,7 @@ StepFrame(r, m) ==
               IN IF stop THEN Ret(r, [f EXCEPT !.cret = "none"], "rec")
                  ELSE SetTop(r, [f EXCEPT !.cret = "none", !.found = (f.found \/ f.cret = "ok")])
          ELSE IF f.todo = {}
-         THEN IF f.found THEN SetTop([r EXCEPT !.knowZone = @ \cup {n}], [f EXCEPT !.ph = 2])
+         THEN IF f.found THEN SetTop(Spawn([r EXCEPT !.knowZone = @ \cup {n}], SeqOf(topo[n].tgt)), [f EXCEPT !.ph = 2])
               ELSE Ret(r, f, "gen")                     \* errNoReachableAuth
          ELSE LET j == MinOf(f.todo)
                   f1 == [f EXCEPT !.todo = @ \ {j}]
@@ -222,7 +262,7 @@ StepFrame(r, m) ==
          IF f.sub > 0
          THEN (CASE f.sp = 0 -> IF f.qd >= MaxQ THEN Ret(r, f, "rec")
                                ELSE IF ~Accepts(r, m, "int") THEN Rejected(r)
-                               ELSE SetTop(Debited(r, m, "int"), [f EXCEPT !.sp = IF r.knowSink THEN 2 ELSE 1])
+                               ELSE SetTop(Started(Debited(r, m, "int")), [f EXCEPT !.sp = IF r.knowSink THEN 2 ELSE 1])
                 [] f.sp = 1 -> IF ~SendOK(r, m, FALSE) THEN Rejected(r)
                                ELSE SetTop([Send(r, m, FALSE) EXCEPT !.knowSink = TRUE], [f EXCEPT !.sp = 2])
                 [] OTHER    -> IF ~SendOK(r, m, FALSE) THEN Rejected(r)
@@ -230,36 +270,66 @@ StepFrame(r, m) ==
          ELSE IF f.md <= 1 THEN Ret(r, f, "gen")           \* errMaxDepth
          ELSE IF ~SendOK(r, m, FALSE) THEN Rejected(r)
          ELSE SetTop(Send(r, m, FALSE), [f EXCEPT !.md = @ - 1, !.sub = topo[n].fan, !.sp = 0])
+    [] f.ph = 30 ->
+         \* a detached job's AAAA question for the in-zone NS name of zone n (0 = test.) at that zone's own
+         \* server: NODATA; a dead server costs the udp, udp, tcp ladder
+         IF f.sub = 0 THEN Ret(r, f, "ok")
+         ELSE LET tcp == n # 0 /\ topo[n].kind = "LAME" /\ f.sub = 1
+              IN IF ~SendOK(r, m, tcp) THEN Rejected(r)
+                 ELSE SetTop(Send(r, m, tcp), [f EXCEPT !.sub = @ - 1])
     [] OTHER -> r
+
+\* The detached jobs, one NS host at a time (lookupV6Nss): Queryer.Query debits one internal sub-query
+\* on the ledger the job's context carries, then the sub-pipeline runs.  Under the DetachedFresh mutant the
+\* context carries none: the lookup's own start is booked nowhere and the sub-pipeline's chain head
+\* creates a new ledger with the full budget.
+NsCost(z) == IF z = 0 THEN 1
+             ELSE CASE topo[z].kind = "LAME" -> MaxAttempts [] topo[z].kind = "REFGEN" -> 2 [] OTHER -> 1
+StepJobs(r, m) ==
+  IF r.jobs = <<>> THEN [r EXCEPT !.fin = TRUE]          \* the last retain is released: the tree is published
+  ELSE LET job == Head(r.jobs)
+       IN IF job = <<>> THEN [r EXCEPT !.jobs = Tail(@)]  \* lookupV6Nss returns
+          ELSE LET h == Head(job)
+                   r0 == [r EXCEPT !.jobs = <<Tail(job)>> \o Tail(@)]
+                   r1 == IF Fresh(r0) THEN [r0 EXCEPT !.fout = 0, !.fint = 0] ELSE r0
+                   z == IF h = 0 THEN 0 ELSE h - N
+                   child == IF h \in Nodes THEN Frame(h, "v6addr", 1, 0, 0, <<h>>)
+                            ELSE [Frame(z, "v6ns", 1, 0, 0, <<>>) EXCEPT !.ph = 30, !.sub = NsCost(z)]
+               IN IF ~Fresh(r1) /\ ~Accepts(r1, m, "int") THEN Rejected(r1)
+                  ELSE [Started(IF Fresh(r1) THEN r1 ELSE Debited(r1, m, "int")) EXCEPT !.stack = <<child>>]
 
 \* result codes: ok | partial (alias without its target) | gen (genuine, shareable failure) |
 \* loc (ErrResolutionAttemptLimit, request-local) | rec (ErrMaxRecursion, request-local).
 \* lookupV4Nss skips a host on "loc"/"gen" but returns on "rec".
-Step(r, m) == IF r.done \/ r.stack = <<>> THEN r ELSE StepFrame(r, m)
+Step(r, m) == IF r.fin THEN r
+              ELSE IF r.stack # <<>> THEN StepFrame(r, m)
+              ELSE StepJobs(r, m)
 
 (***************************************************************************)
 (* Behaviours                                                              *)
 (***************************************************************************)
 Init == /\ topo \in Topologies
         /\ budget \in Budgets
+        /\ v6 \in V6Set
         /\ run = [m \in Modes |-> R0]
 
-AllDone == \A m \in Modes : run[m].done
+AllDone == \A m \in Modes : run[m].fin
 
 Summary ==
   [t |-> [n \in Nodes |-> [kind |-> topo[n].kind, tgt |-> topo[n].tgt, fan |-> topo[n].fan]],
-   b |-> budget,
+   b |-> budget, v6 |-> v6,
    r |-> [m \in Modes |-> [reply |-> run[m].reply, pk |-> run[m].pk, out |-> run[m].out,
                            int |-> run[m].int, rec |-> run[m].recorded, hops |-> run[m].hops]]]
 
 Advance == /\ ~AllDone
            /\ run' = [m \in Modes |-> Step(run[m], m)]
-           /\ UNCHANGED <<topo, budget>>
-           /\ (Emit /\ (\A m \in Modes : Step(run[m], m).done)) =>
-                 PrintT(ToJson([t |-> Summary.t, b |-> budget,
+           /\ UNCHANGED <<topo, budget, v6>>
+           /\ (Emit /\ (\A m \in Modes : Step(run[m], m).fin)) =>
+                 PrintT(ToJson([t |-> Summary.t, b |-> budget, v6 |-> v6,
                                 r |-> [m \in Modes |-> LET x == Step(run[m], m)
                                                        IN [reply |-> x.reply, pk |-> x.pk, out |-> x.out, int |-> x.int,
-                                                           rec |-> x.recorded, hops |-> x.hops]]]))
+                                                           rec |-> x.recorded, hops |-> x.hops,
+                                                           sq |-> x.sq, dpk |-> x.dpk, dsq |-> x.dsq]]]))
 
 Next == Advance
 
@@ -271,16 +341,19 @@ Spec == Init /\ [][Next]_vars /\ WF_vars(Next)
 R0Rank == 6
 Unit == R0Rank + 1
 Lvl == 1 + 3 * MaxGenFan
-W == 2048
+W == 4096
+\* what a job started by this frame may add to the local rank (one step per job plus one unit per host)
+JobPot == 1 + Unit * MaxFan
 
 Rank(f) ==
   IF f.ret # "none" THEN 2
   ELSE CASE f.ph = 0 -> 6
          [] f.ph = 1 -> 5
          [] f.ph = 2 -> 4
-         [] f.ph = 11 -> 5 + Unit * Cardinality(f.todo) + (IF f.cret # "none" THEN 1 ELSE 0)
+         [] f.ph = 11 -> 5 + JobPot + Unit * Cardinality(f.todo) + (IF f.cret # "none" THEN 1 ELSE 0)
          [] f.ph = 25 -> 4 + Unit
          [] f.ph = 3 -> 3 + (IF f.cret # "none" THEN 1 ELSE 0)
+         [] f.ph = 30 -> 3 + f.sub
          [] f.ph = 20 -> 3 + f.md * (Lvl + 1) + (IF f.sub > 0 THEN 3 * (f.sub - 1) + (3 - f.sp) ELSE 0)
          [] OTHER -> 0
 
@@ -293,7 +366,11 @@ SumAtt(a, S) == IF S = {} THEN 0 ELSE LET x == CHOOSE y \in S : TRUE IN (MaxAtte
 Slots(r) == SumAtt(r.attT, Nodes) + SumAtt(r.attL, Nodes)
             + (IF r.knowTest THEN 0 ELSE 1) + (IF r.knowSink THEN 0 ELSE 1)
 
-Measure(r) == Slots(r) * W + SumRank(r.stack)
+RECURSIVE JobsRank(_)
+JobsRank(js) == IF js = <<>> THEN 0 ELSE 1 + Unit * Len(Head(js)) + JobsRank(Tail(js))
+
+Local(r) == SumRank(r.stack) + JobsRank(r.jobs) + (IF r.fin THEN 0 ELSE 1)
+Measure(r) == Slots(r) * W + Local(r)
 
 (***************************************************************************)
 (* Properties                                                              *)
@@ -306,13 +383,26 @@ TypeOK == /\ \A m \in Modes : /\ run[m].reply \in {"none", "answer", "servfail",
 Terminates == <>AllDone
 \* Terminates (2): a natural-number measure strictly decreases on every step of every run
 MeasureDecreases ==
-  [][\A m \in Modes : ~run[m].done => Measure(run'[m]) < Measure(run[m])]_vars
-LocalBelowW == \A m \in Modes : SumRank(run[m].stack) < W
+  [][\A m \in Modes : ~run[m].fin => Measure(run'[m]) < Measure(run[m])]_vars
+LocalBelowW == \A m \in Modes : Local(run[m]) < W
 
-\* WithinBudget: enforce mode -- packets actually sent and sub-queries actually started
+\* WithinBudget: enforce mode -- packets actually sent and sub-queries actually started by the whole
+\* request tree, detached helper lookups included (a state invariant: it also holds when the tree is finished)
 WithinBudget == /\ run["enforce"].pk <= budget[1]
+                /\ run["enforce"].sq <= budget[2]
                 /\ run["enforce"].out <= budget[1]
                 /\ run["enforce"].int <= budget[2]
+
+\* OneLedgerPerTree: every packet and every sub-query of the tree -- nested pipelines and detached jobs
+\* included -- is booked on the tree's one ledger (what shadow mode counts is what was done)
+OneLedgerPerTree == \A m \in {"shadow", "enforce"} : run[m].pk = run[m].out /\ run[m].sq = run[m].int
+
+\* ReplyIsFinal: detached work can neither change what the client got nor poison the tree after the fact
+ReplyIsFinal ==
+  [][\A m \in Modes : run[m].reply # "none" =>
+        /\ run'[m].reply = run[m].reply
+        /\ run'[m].recorded = run[m].recorded
+        /\ run'[m].latched = run[m].latched]_vars
 
 \* OverBudgetIsPrivate: the over-budget reply is SERVFAIL+EDE and is never recorded as shared state;
 \* and the EDE reply appears only when a debit was rejected
@@ -321,9 +411,9 @@ OverBudgetIsPrivate ==
                    /\ run[m].reply = "servfail_ede" => (run[m].latched /\ m = "enforce")
 
 \* ShadowEqualsOff: lockstep equality of everything except the counters
-Proj(r) == [r EXCEPT !.out = 0, !.int = 0]
+Proj(r) == [r EXCEPT !.out = 0, !.int = 0, !.fout = 0, !.fint = 0]
 ShadowEqualsOff == Proj(run["shadow"]) = Proj(run["off"])
 
-\* enforce differs from off only by dying early
-EnforceIsPrefix == ~run["enforce"].latched => Proj(run["enforce"]) = Proj(run["off"])
+\* enforce differs from off only by dying early (the tree, or a best-effort helper job of it)
+EnforceIsPrefix == (~run["enforce"].latched /\ ~run["enforce"].starved) => Proj(run["enforce"]) = Proj(run["off"])
 =============================================================================
